@@ -83,8 +83,8 @@ var AnyTS = func() *schema.TypeSystem {
 	ts.Accumulate(schema.SpawnFloat("Float"))
 	ts.Accumulate(schema.SpawnBytes("Bytes"))
 	ts.Accumulate(schema.SpawnLink("Link"))
-	ts.Accumulate(schema.SpawnMap("MapAny", "String", "Any", false))
-	ts.Accumulate(schema.SpawnList("ListAny", "Any", false))
+	ts.Accumulate(schema.SpawnMap("MapAny", "String", "Any", true)) // nullable: bindnode admits null in Any only where nullable
+	ts.Accumulate(schema.SpawnList("ListAny", "Any", true))
 	return ts
 }()
 
